@@ -8,13 +8,14 @@
 From Verif Require Import Base.Prelude Model.Tree Model.Spec Model.VM Model.Writer Gen.RunnerGen
   Proofs.SpecProofs Proofs.SpecBoundsProofs Proofs.MaskProofs
   Proofs.VMU Proofs.VMUOps Proofs.VMUOps2 Proofs.VMUOps3 Proofs.CompileBase
-  Proofs.CompileDefs Proofs.CompileStage1 Proofs.CompileLoop.
+  Proofs.CompileDefs Proofs.CompileStage1 Proofs.CompileLoop Proofs.CompileCharLoop Proofs.CompileMulti.
 From Coq Require Import Relations ZifyBool.
 
 Section CC.
 Variable e : env.
 Variable p : program.
 Hypothesis tc_nonneg : 0 <= trackcount p.
+Hypothesis Htlen : tlen e <= INF.
 
 Notation rsteps := (VMUOps2.rsteps e p).
 Notation leadsg := (CompileBase.leadsg e p).
@@ -23,6 +24,7 @@ Notation track_ok := (CompileBase.track_ok p).
 Notation caps_rel := (CompileBase.caps_rel p).
 
 Notation code_ex := (CompileDefs.code_ex p).
+Notation tbl_ok := (CompileDefs.tbl_ok p).
 Notation ok_node := (CompileDefs.ok_node e p).
 Notation ok_at := (CompileDefs.ok_at e p).
 
@@ -34,6 +36,8 @@ Proof.
   - assert (IH' : ok_at f) by (apply IH; lia). clear IH.
     destruct t; try discriminate Hs.
     + apply cc_char; exact tc_nonneg.
+    + cbn [supported] in Hs. apply cc_charloop; try assumption; lia.
+    + apply cc_multi; exact tc_nonneg.
     + apply cc_anchor; exact tc_nonneg.
     + apply cc_nothing; exact tc_nonneg.
     + apply cc_empty.
@@ -52,11 +56,11 @@ Theorem compile_correct_partial : forall fuel t s res,
   sem e fuel t s = Ok res -> supported t = true -> st_ok e s -> groups_ok (capsize p) t ->
   forall a tbl T S C M,
     has_code a (fst (emit cfg0 t a tbl)) -> (exists w, code_at p (a + csize cfg0 t) = Some w) ->
-    track_ok T -> caps_rel (caps s) M ->
+    track_ok T -> caps_rel (caps s) M -> tbl_ok (snd (emit cfg0 t a tbl)) ->
     leadsg (a + csize cfg0 t) T S S C M (mkr a 0 (pos s) T S C M) res.
 Proof.
-  intros fuel t s res Hf Hsem Hs Hst Hg a tbl T S C M Hc Hex Hk Hr.
-  exact (cc_all_ok fuel Hf t Hs Hg s res Hsem Hst a tbl T S C M Hc Hex Hk Hr).
+  intros fuel t s res Hf Hsem Hs Hst Hg a tbl T S C M Hc Hex Hk Hr Htb.
+  exact (cc_all_ok fuel Hf t Hs Hg s res Hsem Hst a tbl T S C M Hc Hex Hk Hr Htb).
 Qed.
 
 (* ---------- the whole program: Lazybranch Lend ; root ; Lend: Stop ---------- *)
@@ -79,7 +83,7 @@ Theorem compile_correct_top_partial : forall fuel o body t0 r,
   let root := NCapture o 0 (-1) body in
   let M0 := repeat [] (Z.to_nat (capsize p)) in
   let stop := 2 + csize cfg0 root in
-  codes p = fst (compile cfg0 root) ->
+  codes p = fst (compile cfg0 root) -> strings p = snd (compile cfg0 root) ->
   supported root = true -> groups_ok (capsize p) root -> 0 <= t0 <= tlen e ->
   Z.of_nat fuel <= INF ->
   attempt e fuel root t0 = Ok r ->
@@ -92,11 +96,11 @@ Theorem compile_correct_top_partial : forall fuel o body t0 r,
     | None => M = M0 /\ T = [] /\ S = [] /\ C = [] /\ matched0 (VMU.mk stop 0 t T S C M) = false
     end.
 Proof.
-  intros fuel o body t0 r root M0 stop Hcodes Hs Hg Ht0 Hfuel Hatt.
+  intros fuel o body t0 r root M0 stop Hcodes Hstrings Hs Hg Ht0 Hfuel Hatt.
   unfold attempt in Hatt. apply sp_bind_ok in Hatt. destruct Hatt as [l [Hsem Hr]]. injection Hr as <-.
-  pose proof cc_has_code_self as Hc. rewrite Hcodes in Hc. unfold compile in Hc.
+  pose proof cc_has_code_self as Hc. rewrite Hcodes in Hc. unfold compile in Hc, Hstrings.
   pose proof (emit_length cfg0 root 2 []) as Lr.
-  destruct (emit cfg0 root 2 []) as [cr tbl'] eqn:Er. cbn [fst] in Lr, Hc.
+  destruct (emit cfg0 root 2 []) as [cr tbl'] eqn:Er. cbn [fst snd] in Lr, Hc, Hstrings.
   apply has_code_cons in Hc. destruct Hc as [H0 Hc]. apply has_code_cons in Hc. destruct Hc as [H1 Hc].
   apply has_code_app in Hc. destruct Hc as [Hcr Hc]. apply has_code_cons in Hc. destruct Hc as [Hstop _].
   replace (0 + 1) with 1 in * by lia. replace (1 + 1) with 2 in * by lia.
@@ -113,7 +117,8 @@ Proof.
     - rewrite Er. exact Hcr.
     - exists Stop. exact Hstop.
     - eapply track_ok_cons. exact H0.
-    - apply cc_caps_rel_init. exact Hcap. }
+    - apply cc_caps_rel_init. exact Hcap.
+    - rewrite Er. cbn [snd]. intros i str Hi. rewrite Hstrings. exact Hi. }
   assert (Hstep1 : VMU.usteps e p (VMU.mk 0 0 t0 [] [] [] M0) (mkr 2 0 t0 [0] [] [] M0 t0)).
   { apply usteps_one. unfold mkr. cbn [app]. eapply ustep_lazybranch; eassumption. }
   assert (HlM0 : zlen M0 = capsize p) by (unfold M0, zlen; rewrite repeat_length; lia).
@@ -182,8 +187,8 @@ Proof.
     assert (Hg : groups_ok (capsize cc_demo_prog) cc_demo_root).
     { cbn. repeat split; try exact I; cbv; congruence. }
     assert (Hp : 0 <= 0 <= tlen cc_demo_env) by (cbv; split; congruence).
-    destruct (compile_correct_top_partial cc_demo_env cc_demo_prog Htc 20 0 cc_demo_body 0 (Some cc_demo_result)
-                eq_refl eq_refl Hg Hp ltac:(cbv; congruence) ltac:(vm_compute; reflexivity)) as [_ (t & T & S & C & M & H1 & H2 & H3 & H4 & H5)].
+    destruct (compile_correct_top_partial cc_demo_env cc_demo_prog Htc ltac:(cbv; congruence) 20 0 cc_demo_body 0 (Some cc_demo_result)
+                eq_refl eq_refl eq_refl Hg Hp ltac:(cbv; congruence) ltac:(vm_compute; reflexivity)) as [_ (t & T & S & C & M & H1 & H2 & H3 & H4 & H5)].
     exists t, T, S, C, M. exact (conj H1 (conj H2 (conj H3 (conj H4 H5)))).
   - eexists. split; [vm_compute; reflexivity|]. repeat split.
 Qed.
